@@ -112,6 +112,9 @@ def size(t):
     return 1 + (sum(size(x) for x in t["a"]) if t["t"] == "c" else 0)
 
 
+EXACT_NUMBERS = False      # set by the C17 task: numbers TLC cannot hold are passed as marked strings
+
+
 class TooLarge(Exception):
     """the answer is outside the size the judges handle: the case is skipped (counted), never a verdict"""
 
@@ -139,11 +142,15 @@ def from_problog(x, vmap=None, _depth=0):
         if isinstance(v, bool):
             return A(str(v))
         if isinstance(v, int):
+            if abs(v) >= 2 ** 30 and EXACT_NUMBERS:
+                return S("#int:%d" % v)            # beyond TLC's 32-bit integers: compared as text
             return I(v)
         if isinstance(v, float):
             q = v * 4
-            if q == int(q):
+            if v == v and abs(v) < 2.0 ** 28 and q == int(q):
                 return F(int(q))
+            if EXACT_NUMBERS:
+                return S("#float:%r" % v)          # off the quarter grid: compared as text (repr is exact)
             return {"t": "f", "v": 0, "raw": repr(v)}
         s = str(v)
         if len(s) >= 2 and s[0] == '"' and s[-1] == '"':
